@@ -248,6 +248,87 @@ theorem writable_same_datatype_ok (a : CType F) (ha : a.WF) (hal : GridAligned a
     exact compatible_refl _ (erase_wf a ha) hal
   simp only [writableCheck, this, passes, if_true]
 
+/-! ## commands -/
+
+/-- a passing `compatOpt`: both `None`, or both datatypes with a passing check -/
+theorem compatOpt_ok {x y : Option (CType F)} (h : compatOpt x y = .ok ()) :
+    (x = none ∧ y = none) ∨ ∃ a b, x = some a ∧ y = some b ∧ compatibleC a b = .ok () := by
+  match x, y, h with
+  | none, none, _ => exact .inl ⟨rfl, rfl⟩
+  | some a, some b, h => exact .inr ⟨a, b, rfl, rfl, h⟩
+  | none, some _, h => simp [compatOpt] at h
+  | some _, none, h => simp [compatOpt] at h
+
+/-- a passing `CommandType.compatible` means: both commands take an argument or neither does, and the argument type
+here passed the check against the one there; both give a result or neither does, and the result type there passed
+the check against the one here — so `compatibleC_sound_partial` applies to the two pairs (arguments valid here are
+valid there, results valid there are valid here) -/
+theorem compatibleCmd_reduces (a b : CmdType F) (h : compatibleCmd a b = .ok ()) :
+    ((a.argument = none ∧ b.argument = none) ∨
+      ∃ x y, a.argument = some x ∧ b.argument = some y ∧ compatibleC x y = .ok ()) ∧
+    ((a.result = none ∧ b.result = none) ∨
+      ∃ x y, a.result = some x ∧ b.result = some y ∧ compatibleC y x = .ok ()) := by
+  unfold compatibleCmd at h
+  cases h1 : compatOpt a.argument b.argument with
+  | error e => rw [h1] at h; cases h
+  | ok u =>
+    rw [h1] at h
+    refine ⟨compatOpt_ok h1, ?_⟩
+    rcases compatOpt_ok h with ⟨p, q⟩ | ⟨y, x, p, q, r⟩
+    · exact .inl ⟨q, p⟩
+    · exact .inr ⟨x, y, q, p, r⟩
+
+/-- `CommandType.compatible` passes on the pairings of the statement: arguments nested towards the other command,
+results nested from it -/
+theorem compatibleCmd_complete (a b : CmdType F)
+    (hwa : ∀ x, a.argument = some x ∨ a.result = some x → x.WF ∧ GridAligned x.erase)
+    (hwb : ∀ y, b.argument = some y ∨ b.result = some y → y.WF ∧ GridAligned y.erase)
+    (hn : NestedCmd a b) : compatibleCmd a b = .ok () := by
+  unfold NestedCmd at hn
+  have harg : compatOpt a.argument b.argument = .ok () := by
+    have h1 := hn.1
+    cases ha : a.argument with
+    | none =>
+      cases hb : b.argument with
+      | none => rfl
+      | some y => rw [ha, hb] at h1; exact h1.elim
+    | some x =>
+      cases hb : b.argument with
+      | none => rw [ha, hb] at h1; exact h1.elim
+      | some y =>
+        rw [ha, hb] at h1
+        exact compatibleC_complete x y (hwa x (.inl ha)).1 (hwb y (.inl hb)).1 (hwa x (.inl ha)).2 (hwb y (.inl hb)).2 h1
+  have hres : compatOpt b.result a.result = .ok () := by
+    have h2 := hn.2
+    cases ha : a.result with
+    | none =>
+      cases hb : b.result with
+      | none => rfl
+      | some y => rw [ha, hb] at h2; exact h2.elim
+    | some x =>
+      cases hb : b.result with
+      | none => rw [ha, hb] at h2; exact h2.elim
+      | some y =>
+        rw [ha, hb] at h2
+        exact compatibleC_complete y x (hwb y (.inr hb)).1 (hwa x (.inr ha)).1 (hwb y (.inr hb)).2 (hwa x (.inr ha)).2 h2
+  simp only [compatibleCmd, harg, hres]
+
+/-- a command is compatible with the command rebuilt from its own description, so the proxy check logs nothing for it -/
+theorem proxy_own_command_silent (a : CmdType F)
+    (hwa : ∀ x, a.argument = some x ∨ a.result = some x → x.WF ∧ GridAligned x.erase) :
+    compatibleCmd a (rebuildCmd a) = .ok () ∧ proxyCommand a (some (rebuildCmd a)) = [] := by
+  have harg : compatOpt a.argument (a.argument.map rebuildC) = .ok () := by
+    cases ha : a.argument with
+    | none => rfl
+    | some x => exact (compatible_with_own_description x (hwa x (.inl ha)).1 (hwa x (.inl ha)).2).1
+  have hres : compatOpt (a.result.map rebuildC) a.result = .ok () := by
+    cases ha : a.result with
+    | none => rfl
+    | some x => exact (compatible_with_own_description x (hwa x (.inr ha)).1 (hwa x (.inr ha)).2).2
+  have h : compatibleCmd a (rebuildCmd a) = .ok () := by
+    simp only [compatibleCmd, rebuildCmd, harg, hres]
+  exact ⟨h, by simp only [proxyCommand, h, passes, if_true]⟩
+
 /-- the monitor decides `Nested` -/
 theorem nestedB_iff (a b : DType F) : nestedB a b = true ↔ Nested a b := decide_eq_true_iff
 
@@ -382,6 +463,23 @@ example : ∃ a b : CType Rat, a.WF ∧ GridAligned a.erase ∧ a.cls = "limits"
     by simp [CType.WF, CType.isNumeric, DType.WF, DType.isLeafKind, DType.intLimit],
     by simp [CType.erase, GridAligned, GridAlignedList], rfl,
     by simp [CType.WF, DType.namesOK], by simp [CType.erase, GridAligned, GridAlignedList], rfl⟩
+
+/-- the hypotheses of `compatibleCmd_complete` / `proxy_own_command_silent` are met by a command with an integer
+argument and a status result, against one taking a wider argument -/
+example : ∃ a b : CmdType Rat, (∀ x, a.argument = some x ∨ a.result = some x → x.WF ∧ GridAligned x.erase) ∧
+    (∀ y, b.argument = some y ∨ b.result = some y → y.WF ∧ GridAligned y.erase) ∧ NestedCmd a b ∧ a.argument.isSome = true := by
+  have w1 : (CType.leaf (.int 0 5) : CType Rat).WF ∧ GridAligned (CType.leaf (.int 0 5) : CType Rat).erase := by
+    simp [CType.WF, DType.WF, DType.isLeafKind, DType.intLimit, CType.erase, GridAligned]
+  have w2 : (CType.leaf (.int 0 9) : CType Rat).WF ∧ GridAligned (CType.leaf (.int 0 9) : CType Rat).erase := by
+    simp [CType.WF, DType.WF, DType.isLeafKind, DType.intLimit, CType.erase, GridAligned]
+  have w3 : (CType.status [("IDLE", 100)] : CType Rat).WF ∧ GridAligned (CType.status [("IDLE", 100)] : CType Rat).erase := by
+    simp [CType.WF, DType.namesOK, CType.erase, GridAligned, GridAlignedList]
+  refine ⟨⟨some (.leaf (.int 0 5)), some (.status [("IDLE", 100)])⟩, ⟨some (.leaf (.int 0 9)), some (.status [("IDLE", 100)])⟩,
+    ?_, ?_, by decide +kernel, rfl⟩
+  · intro x hx
+    rcases hx with hx | hx <;> cases hx <;> assumption
+  · intro y hy
+    rcases hy with hy | hy <;> cases hy <;> assumption
 
 /-- the law classes are inhabited: the exact carrier -/
 example : LawfulFloatOps Rat ∧ CompatLaws Rat := ⟨inferInstance, inferInstance⟩
